@@ -6,7 +6,8 @@
    exactly such pairs, and the effect of --marking / --no-typed-objects on the emitted text,
    are decided by the metamorphic runs of the real binary. *)
 Require Import Base Syntax Consts Pst.
-Require Import proofs.TriviaProofs.
+Require Import gen.PstFacts.
+Require Import proofs.TriviaProofs proofs.PstProofs.
 Open Scope string_scope.
 Open Scope list_scope.
 
@@ -53,3 +54,21 @@ Theorem C14_doc_then_comment_refuted :
   members_of Debug false [doc; c; f] None = Ok [IFunc (mkFn "f" [] false None)].
 Proof. exact doc_then_comment_loses_doc. Qed.
 Print Assumptions C14_doc_then_comment_refuted.
+
+(* comments between the tokens of a declaration (inside a parameter, a constant, a struct field,
+   array brackets, an interface header): with the repaired positional reads of pst.rs two pair
+   trees that differ only in such comments give the same AST, in either build mode *)
+Theorem C14_comments_inside_declarations : forall md ub t1 t2,
+  pst_skips_comments = true -> strip_idl t1 = strip_idl t2 -> pst_to_ast md ub t1 = pst_to_ast md ub t2.
+Proof. exact comments_inside_declarations_invisible. Qed.
+Print Assumptions C14_comments_inside_declarations.
+
+Example C14_comment_inside_parameter :
+  let plain := T "idl" "" [T "interface" "" [T "interface_keyword" "interface " []; T "iname" "" [T "ident" "I" []];
+     T "function" "" [T "function_keyword" "method " []; T "ident" "f" [];
+        T "param" "" [T "mutability" "in" []; T "param_type" "" [T "primitive_type" "uint8" []]; T "ident" "x" []]]]] in
+  let commented := T "idl" "" [T "interface" "" [T "interface_keyword" "interface " []; T "COMMENT" "/*a*/" []; T "iname" "" [T "ident" "I" []; T "COMMENT" "//b" []];
+     T "function" "" [T "function_keyword" "method " []; T "COMMENT" "/*c*/" []; T "ident" "f" [];
+        T "param" "" [T "mutability" "in" []; T "COMMENT" "/*d*/" []; T "param_type" "" [T "primitive_type" "uint8" []; T "COMMENT" "/*e*/" []]; T "ident" "x" []]]]] in
+  strip_idl plain = strip_idl commented /\ pst_to_ast Release false commented = pst_to_ast Release false plain.
+Proof. split; vm_compute; reflexivity. Qed.
